@@ -448,6 +448,8 @@ def parent(args):
 
 
 def main():
+    import warnings
+    warnings.simplefilter("ignore")
     ap = argparse.ArgumentParser()
     ap.add_argument("id")
     ap.add_argument("tier", choices=["quick", "thorough"])
